@@ -56,4 +56,38 @@ void hf_fe_codec(void)
     VREACH("hf_fe_codec");
 }
 #endif
+/* ---- ladder structure: the field operations are replaced (goto-instrument --replace-calls) by stubs; the conditional swap
+ * stub records its swap bit.  Decides: the scalar is clamped (RFC 7748: clear bits 0,1,2 and 255, set bit 254), the ladder
+ * consumes exactly bits 254..0 of the clamped scalar, top to bottom, and low-order points are refused up front. ---- */
+static unsigned n_swap; static unsigned char swaps[520]; static int n_frombytes, n_tobytes; static const void *fb_src;
+void s_fe_cswap(fe25519 f, fe25519 g, unsigned int b) { (void) f; (void) g; if (n_swap < 520) swaps[n_swap] = (unsigned char) b; n_swap++; }
+void s_fe_binop(fe25519 h, const fe25519 f, const fe25519 g) { (void) h; (void) f; (void) g; }
+void s_fe_unop(fe25519 h, const fe25519 f) { (void) h; (void) f; }
+void s_fe_mul32(fe25519 h, const fe25519 f, uint32_t n) { (void) h; (void) f; (void) n; }
+void s_fe_frombytes(fe25519 h, const unsigned char *s) { (void) h; n_frombytes++; fb_src = s; }
+void s_fe_tobytes(unsigned char *s, const fe25519 h) { (void) h; n_tobytes++; memset(s, 0x5a, 32); }
+void hf_ladder(void)
+{
+    VIN_GET();
+    unsigned char n[32], q[32], t[32]; int i, r, pos, ok = 1; unsigned prev = 0, bit;
+    for (i = 0; i < 32; i++) n[i] = (unsigned char) (vin.h[i % 5] >> (8 * (i % 7)));
+    n_swap = 0; n_frombytes = n_tobytes = 0;
+    r = crypto_scalarmult_curve25519_ref10(q, n, vin.s);
+    if (has_small_order(vin.s)) { VASSERT("a low-order point is refused before any field arithmetic", r == -1 && n_swap == 0 && n_frombytes == 0); }
+    else {
+        for (i = 0; i < 32; i++) t[i] = n[i];
+        t[0] &= 248; t[31] &= 127; t[31] |= 64;                     /* RFC 7748 decodeScalar25519 */
+        VASSERT("the point is decoded from the caller's 32 bytes and the result is encoded once", r == 0 && n_frombytes == 1 && fb_src == vin.s && n_tobytes == 1);
+        VASSERT("two conditional swaps per ladder step for the 255 steps plus the final pair", n_swap == 2 * 255 + 2);
+        for (pos = 254, i = 0; pos >= 0; pos--, i++) {
+            bit = (t[pos / 8] >> (pos & 7)) & 1;
+            if (swaps[2 * i] != (prev ^ bit) || swaps[2 * i + 1] != (prev ^ bit)) ok = 0;
+            prev = bit;
+        }
+        if (swaps[510] != prev || swaps[511] != prev) ok = 0;
+        VASSERT("the swap sequence is that of the Montgomery ladder over bits 254..0 of the CLAMPED scalar (bit 254 set, bits 0-2 and 255 cleared)", ok);
+    }
+    VREACH("hf_ladder");
+}
+
 VNATIVE_MAIN(VENTRY)
